@@ -84,6 +84,11 @@ func genDoc(rt *rapid.T, hostile bool) *gen.GraphBP {
 		b := g.People[rapid.IntRange(0, len(g.People)-1).Draw(rt, "pairPlaceOf")]
 		a.Names = []gen.Str{gen.Str(pair[0])}
 		b.Events = append(b.Events, gen.EventBP{Tag: "RESI", Place: gen.Str(pair[1]), Date: "1890", HasDate: true})
+		if rapid.Bool().Draw(rt, "numberedPlace") {
+			// ... and a place whose key is the first numbered key that person would get
+			b.Events = append(b.Events, gen.EventBP{Tag: "RESI", Place: gen.Str(pair[1] + " 1"), Date: "1891", HasDate: true},
+				gen.EventBP{Tag: "RESI", Place: gen.Str(pair[1] + "-2"), Date: "1892", HasDate: true})
+		}
 		if rapid.Bool().Draw(rt, "second") {
 			// a second person of the same name: the keys are numbered
 			g.People = append(g.People, &gen.PersonBP{ID: fmt.Sprintf("I%d", len(g.People)+1), Names: []gen.Str{gen.Str(pair[0])},
